@@ -80,7 +80,14 @@ def _analyse_sampling(ctx, f, kind):
         st_t = pre_t.fork()
         st_t.events = []
         st_t.env.update({iv: Rat.atom(iv), tab: Rat.atom(tab)})
-        bo = [o for o in w.run(tl.body, st_t) if o.kind == 'fall']
+        bo = [o for o in w.run(tl.body, st_t) if o.kind in ('fall', 'continue')]
+        noapp = [o for o in bo if not any(e.kind == 'call' and e.name == 'append' and vr(e.recv) == tab for e in o.state.events)]
+        if noapp and len(noapp) < len(bo):
+            ctx.violation('C05.I' if kind == 'temporal' else 'C05.L', f, 'the abscissa table gets one entry for every fix (entry i belongs to fix i)',
+                          {'path without entry': [repr(c) for c, _ in noapp[0].state.conds],
+                           'why': 'the scan counter indexes the table and the track alike: after a skipped entry every later sample is interpolated between the wrong two fixes'},
+                          node=tl, key='table-aligned')
+            return None
         if len(bo) != 1:
             raise shape_error('table loop body not straight-line', f.loc(tl))
         app = [e for e in bo[0].state.events if e.kind == 'call' and e.name == 'append' and vr(e.recv) == tab]
@@ -291,6 +298,11 @@ def rule_R(ctx):
     for k in ('list', 'track', 'number'):
         if k not in found:
             raise shape_error('prepareTimeSampling: arm for %s not found' % k, f.loc())
+    exact = [n for n in ast.walk(found['number'].test) if isinstance(n, ast.Call) and getattr(n.func, 'id', None) == 'type']
+    ctx.check(not exact, 'C05.R', f, 'a step is recognised as a number by isinstance (subclasses of int / float included)',
+              witness={'test': unparse(found['number'].test),
+                       'why': 'an exact-type test rejects float subclasses such as numpy.float64 (the mean or median of sampling intervals): the request list stays empty '
+                              'and the track comes back empty'}, node=found['number'], key='number-test')
     for k, exp_v, exp_hi in (('list', '%s[i].toAbsTime()' % inp, 'len(%s)' % inp), ('track', '%s.getObs(i).timestamp.toAbsTime()' % inp, '%s.size()' % inp)):
         wa = Walker(f, loop_mode='once')
         seen_app = []
